@@ -26,6 +26,7 @@ fn descs() -> Vec<FnDesc> {
         FnDesc { name: "ec", cacheable: true, kind: Kind::E, suspend: 0 },
         FnDesc { name: "n", cacheable: true, kind: Kind::N, suspend: 0 },
         FnDesc { name: "er", cacheable: false, kind: Kind::ER, suspend: 0 },
+        FnDesc { name: "eu", cacheable: false, kind: Kind::EU, suspend: 0 },
     ]
 }
 
@@ -57,6 +58,7 @@ fn templates() -> Vec<(&'static str, Expr, bool)> {
         ("fail-user-function", Expr::func("e", Expr::value(1)), true),
         ("fail-user-function-cacheable", Expr::func("ec", Expr::value(1)), true),
         ("fail-user-function-with-reval-error", Expr::func("er", Expr::value(1)), true),
+        ("fail-user-function-with-inner-user-function-error", Expr::func("eu", Expr::value(1)), true),
         ("fail-after-call", Expr::add(Expr::func("c", Expr::value(1)), Expr::value(1)), true),
     ]
 }
